@@ -18,6 +18,21 @@ Theorem C08_timer_never_sleeps_past_deadline :
 Proof. exact never_sleeps_past_deadline. Qed.
 Print Assumptions C08_timer_never_sleeps_past_deadline.
 
+(* in terms of the stored deadline the statement holds without skew and lag only (partial), and is refuted with
+   skew: an adder delayed between `now()` and its head swap can end up behind an entry with a later deadline; its
+   own timer is then late by at most that delay (DESIGN C08.v) *)
+Theorem C08_timer_never_sleeps_past_stored_deadline_partial :
+  forall s, Reach false s -> tpc s = W -> tok s = false ->
+  forall L e, In e (lst s L) -> eeff e = edl e -> tlag s = 0 ->
+  match twake s with Some T => T <= edl e | None => False end \/ unpark_in_flight s L.
+Proof. exact never_sleeps_past_stored_deadline_partial. Qed.
+Print Assumptions C08_timer_never_sleeps_past_stored_deadline_partial.
+
+Theorem C08_timer_never_sleeps_past_stored_deadline_refuted :
+  exists s, Reach false s /\ quiescent s /\ twake s = Some 10 /\ exists e, In e (lst s 5) /\ edl e = 5 /\ eeff e = 10.
+Proof. exact never_sleeps_past_stored_deadline_refuted. Qed.
+Print Assumptions C08_timer_never_sleeps_past_stored_deadline_refuted.
+
 (* quiescence form: nobody is inside add_timer / del_timer, the timer thread is parked, no token:
    all pending deadlines are >= the wake time, and parked for ever => nothing is pending *)
 Theorem C08_timer_quiescent_wakes_in_time :
